@@ -179,8 +179,25 @@ def check(run):
             nbad += 1
             run.violation('HOUR/MINUTE/SECOND do not invert TIME', {'op': 'time', 'hms': [h, mi, se], 'serial': repr(t),
                                                                    'got': [show(x) for x in got]})
+        # exact-rational model of xtime/_n2time (theorem time_roundtrip_exact) against the floating-point code
+        ask('hms %d %d %d' % (h, mi, se), lambda x, got=got, h=h, mi=mi, se=se: x == ','.join(str(show(v)) for v in got) or run.disagree(
+            'HOUR/MINUTE/SECOND(TIME(%d,%d,%d)): model %s, implementation %s' % (h, mi, se, x, [show(v) for v in got]),
+            {'op': 'time', 'hms': [h, mi, se]}))
+    # overflowing components (TIME carries them): model `hmsOfTime` / theorem time_roundtrip_overflow
+    for _ in range(200 if quick else 3000):
+        h, mi, se = run.rng.randrange(0, 200), run.rng.randrange(0, 2000), run.rng.randrange(0, 32768)
+        t = call('TIME', h, mi, se)
+        got = (call('HOUR', t), call('MINUTE', t), call('SECOND', t))
+        tot = (3600 * h + 60 * mi + se) % 86400
+        run.count(4, ('time-overflow', h, mi, se), True, 'time-overflow')
+        if got != (tot // 3600, tot % 3600 // 60, tot % 60):
+            run.violation('HOUR/MINUTE/SECOND of TIME with overflowing components', {
+                'op': 'time', 'hms': [h, mi, se], 'serial': repr(t), 'got': [show(x) for x in got]})
+        ask('hms %d %d %d' % (h, mi, se), lambda x, got=got, h=h, mi=mi, se=se: x == ','.join(str(show(v)) for v in got) or run.disagree(
+            'HOUR/MINUTE/SECOND(TIME(%d,%d,%d)): model %s, implementation %s' % (h, mi, se, x, [show(v) for v in got]),
+            {'op': 'time', 'hms': [h, mi, se]}))
     run.extra['time_enumeration'] = {'seconds_checked': len(secs), 'exhaustive': step == 1,
-                                     'note': 'floating-point instance: enumerated on the implementation, not a proof'}
+                                     'note': 'floating-point instance: enumerated on the implementation and compared with the exact-rational model (theorems time_roundtrip_exact / _overflow); the enumeration is not a proof'}
 
     # ---- base conversion ---------------------------------------------------------------------------------
     names = {2: ('DEC2BIN', 'BIN2DEC'), 8: ('DEC2OCT', 'OCT2DEC'), 16: ('DEC2HEX', 'HEX2DEC')}
